@@ -6,7 +6,7 @@ ALL = ['C%02d' % i for i in range(1, 21)]
 
 CLAIMED = {
  'C01': dict(
-   technique='Lean 4 proof (Mealy fusion: lazy chain = staged fold incl. per-machine effect logs, any chain length; dispatch table total; regroup/conditional splice) + dispatch & pipeline correspondence + lazy-vs-staged oracle on real code',
+   technique='Lean 4 proof (Mealy fusion: lazy chain = staged fold incl. per-machine effect logs, any chain length; dispatch table total; regroup/conditional splice) + dispatch & pipeline correspondence + lazy-vs-staged oracle on real code + translator tie (Tie_chain_dispatch / Tie_chain_never_skips: the if/elif chain of Flow._chain, re-translated from the working tree on every run, takes the branch Link.classify names for every description of a link object and never leaves the stream unchanged) + pyeval correspondence of the dispatch',
    text='C01_lazy_eq_staged_* are proved for every chain of row-phase machines and every event stream; C01_dispatch_total says no link falls through; regrouping and always-true conditionals are spliced in place. The tie to the code: every kind of link object is pushed through the real Flow and compared with classify; random pipelines run on the real lazy engine are compared with the model staged fold; and the property itself (lazy = step-by-step, regrouping, three APIs) is checked on the real code alone, incl. user callables of every kind and in-place mutators after retaining steps.',
    note='object aliasing is not modelled (probed by mutator scenarios); user callables are sampled from a fixed zoo',
    ref='6/C01'),
@@ -16,17 +16,17 @@ CLAIMED = {
    note='validity = what Field.cast_value accepts (parameter); join / concatenate / unpivot / rename preservation is checked by the oracle and correspondence, not proved; a full-outer join keyed by the row number is a listed finding',
    ref='6/C02'),
  'C03': dict(
-   technique='Lean 4 proof (record round trip under per-type codec assumptions; JSON rows read by key in any key order; null cell; boolean / temporal / year codecs concretely; live dialect table by decide) + real dump->load and independent-decode oracle',
+   technique='Lean 4 proof (record round trip under per-type codec assumptions; JSON rows read by key in any key order; null cell; boolean / temporal / year codecs concretely; live dialect table by decide) + real dump->load and independent-decode oracle + code-skeleton obligation (a row is written before it is handed on) + in-place edits after the dump',
    text='C03_record_roundtrip and C03_json_keyed_roundtrip hold for every schema order and row; C03_temporal/year/bool_roundtrip for the repository-chosen formats; C03_dialect_table is decided on the serialiser / dialect tables regenerated from the source on every run. Real dumps (10 field types, csv/json, path/zip, add_filehash_to_path, temporal_format_property, several resources, awkward names and values) are read back with load() defaults and, independently, with csv/json plus the recorded dialect only, and compared by typed equality.',
    note='CPython csv/json/strftime, tabulator and tableschema casts are parameters (differential-tested); positional reading of sorted JSON keys (load of json dumps with non-alphabetical schema order) and CR LF normalisation are listed findings; JSON numbers to double precision',
    ref='6/C03'),
  'C04': dict(
-   technique='Lean 4 proof (exception funnel: every fault position/class ends in ProcessorError with the original cause; no commit effect after a failure) + fault correspondence + fault matrix on real code + code-skeleton obligations regenerated from the source (stream publishes last, descriptor after resources)',
+   technique='Lean 4 proof (exception funnel: every fault position/class ends in ProcessorError with the original cause; no commit effect after a failure) + fault correspondence + fault matrix on real code + code-skeleton obligations regenerated from the source (stream publishes last, descriptor after resources) + translator tie (TieDriver: raise_exception, the three except arms of safe_process, _process and the default generator row phase re-translated from the working tree on every run: every failure while the package is defined or while streams are drained leaves through raise_exception, safe_process returns only when nothing failed) + pyeval correspondence of the funnel',
    text='C04_propagates_* / C04_never_ok are proved for every chain length, fault position, phase and exception class over the model of _process/safe_process; C04_no_commit_after_failure for every pair of machines whose commits are epilogue effects. The model is tied to the code by the fault correspondence; the property is checked on the real code over a fault matrix (kind x class x position x API) with observers placed after the fault, poisoned rows for built-ins, and upstream failures reaching parallelize in a subprocess under a time limit.',
    note='generator finalisation is CPython behaviour; a failing source iterator is re-wrapped by datapackage (identity of the cause is required for failures raised by steps); parallelize row-function failures inside workers are ignored by design and not steps',
    ref='6/C04'),
  'C05': dict(
-   technique='Lean 4 proof (observer transparent; observer log = full staged stream at its position for every suffix, corollary of the fusion theorem; no-abandon demand theorem) + observe correspondence + byte-level capture oracle',
+   technique='Lean 4 proof (observer transparent; observer log = full staged stream at its position for every suffix, corollary of the fusion theorem; no-abandon demand theorem) + observe correspondence + byte-level capture oracle + code-skeleton obligations (dumpers and stream write a row before handing it on)',
    text='C05_transparent / C05_complete / C05_finalizer_once_last hold for every prefix, suffix and stream; C05_complete_demand shows that without an abandoning step every upstream resource is pulled to exhaustion. On the real code, every observer kind is inserted before discarding suffixes and what it persisted is compared byte-for-byte with the same observer run with nothing after it; downstream results are compared with the pipeline without the observer.',
    note='the Draining hypothesis on user code downstream is a hypothesis, as it must be; treatment tables of built-ins are models by inspection tied by the capture oracle',
    ref='6/C05'),
@@ -36,7 +36,7 @@ CLAIMED = {
    note='file-object / csv buffering is not look-ahead; S is read live from iterable_storage.SAMPLE_SIZE',
    ref='6/C06'),
  'C07': dict(
-   technique='Lean 4 proof (extended-JSON codec round trip over nested typed values incl. any UTC offset; stream/unstream framing; run/delete history and checkpoint-chain state machines) + ejson/plan correspondence + history oracle on real code + code-skeleton obligation (checkpoint decides by existence of the final name only) + unstream correspondence',
+   technique='Lean 4 proof (extended-JSON codec round trip over nested typed values incl. any UTC offset; stream/unstream framing; run/delete history and checkpoint-chain state machines) + ejson/plan correspondence + history oracle on real code + code-skeleton obligation (checkpoint decides by existence of the final name only) + unstream correspondence + translator ties (Tie_preprocess_chain / Tie_checkpoint_handle / Tie_checkpoint_preprocess + plan_of_fold: Flow._preprocess_chain and the two checkpoint methods, re-translated on every run, compute Ckpt.planChain; Tie_ejson_default: the encoder dispatches every kind of value to the tag Ejson.enc uses, a datetime before a date) + pyeval correspondence of both',
    text='C07_ejson_roundtrip is proved by structural induction over all nested values of the claimed domain with the fixed-width date/time formats and the offset arithmetic modelled concretely; C07_stream_unstream for any number of (possibly empty) resources; C07_history / C07_chain_last_wins by induction over histories / chains. Tied to the code by comparing the real tag tree and decoded value of generated typed values with the model, and the executed steps of real run/delete histories over chains of checkpoints with the model plan.',
    note='json text layer, Decimal str/constructor and isodate are assumed to round-trip (leaf parameters); sub-second parts are outside the proved domain (listed finding); user objects carrying tag keys are outside the domain',
    ref='6/C07'),
@@ -86,7 +86,7 @@ CLAIMED = {
    note='a killed process performs no further effects; writes to one file take effect in order; temp files outside the output directory are not observable',
    ref='6/C19'),
  'C15': dict(
-   technique='Lean 4 proof (lockstep invariants of delete/select/add/rename) + step correspondence + lockstep oracle + find_replace / add_computed_field model (exact arithmetic, declared-type rule) in the step correspondence',
+   technique='Lean 4 proof (lockstep invariants of delete/select/add/rename) + step correspondence + lockstep oracle + find_replace / add_computed_field model (exact arithmetic, declared-type rule) in the step correspondence + translator tie (Tie_delete_process / Tie_select_process / Tie_rename_process: the row functions of the three field processors, re-translated on every run, = Row.restrict / renameRow for every list of rows) + pyeval correspondence',
    text='Lockstep (row keys = declared fields), value preservation and order rules proved for every table and every regex oracle; correspondence ties the model to the code; the lockstep property is checked directly on real outputs incl. add_computed_field and find_replace.',
    note='regex via oracle table; rename onto an existing untouched field is outside the proved theorem (guard of the _partial statement)',
    ref='6/C15'),
@@ -96,7 +96,7 @@ CLAIMED = {
    note='kvfile (duplicate spill) assumed order-preserving on 8-hex-digit keys; aliasing not modelled (probed)',
    ref='6/C16'),
  'C17': dict(
-   technique='Lean 4 proof (filter = List.filter, dedupe first-of-key + idempotent, unpivot shape/count) + step correspondence + Python-spec oracle + translator tie: the function(s) re-translated from the working tree into the PyLite embedding on every run and proved equal to the model (Tie_filter_process, Tie_deduper: the generators of filter_rows.process_resource and deduplicate.deduper = filter / first-row-of-each-key, by induction through the evaluator loop) + pyeval correspondence (real function vs evaluator of the translated syntax)',
+   technique='Lean 4 proof (filter = List.filter, dedupe first-of-key + idempotent, unpivot shape/count) + step correspondence + Python-spec oracle + translator tie: the function(s) re-translated from the working tree into the PyLite embedding on every run and proved equal to the model (Tie_filter_process, Tie_deduper: the generators of filter_rows.process_resource and deduplicate.deduper = filter / first-row-of-each-key, by induction through the evaluator loop) + pyeval correspondence (real function vs evaluator of the translated syntax) + Tie_conditions_pv / Tie_conditions_model: old_style_conditions = the model condition oldStyleCond (short-circuit search) on null/bool/int/text cells',
    text='Theorems hold for all tables; the compiled model is compared with the real processors on generated tables and an independent Python specification is checked on the real output.',
    note='regex via oracle table; Python == across bool/int/Decimal modelled by pyEq; unpivot_rows / old_style_conditions are translated and covered by the pyeval correspondence, tie theorems not yet written; PyLite translator + evaluator are trusted and validated by the pyeval correspondence',
    ref='6/C17'),
